@@ -79,6 +79,9 @@ def run_mux(ctx, prop, min_nontrivial=40):
     if rc != 0:
         t.errors.append("harness failed: " + o[-3000:])
         return t
+    if not os.path.exists(os.path.join(out, "result.json")):
+        t.errors.append("harness wrote no result.json; its output: " + o[-3000:])
+        return t
     r = json.load(open(os.path.join(out, "result.json")))
     t.evaluations = r["evaluations"]
     t.distinct_nontrivial = r["distinct_nontrivial"]
